@@ -235,6 +235,15 @@ class SymSet(object):
             return a.union(b)
         raise VCError('set op ' + op)
 
+    def vc_iop(self, op, other, ex, st, node):
+        """s -= t / s |= t: Python updates the set object in place"""
+        if op == 'Sub':
+            self.mem = self.minus(other).mem
+        elif op == 'BitOr':
+            self.mem = self.union(other).mem
+        else:
+            raise VCError('in-place set op ' + op)
+
     def vc_setop(self, name, conc, reflected):
         a = SymSet.lift(conc)
         if name == 'issubset':
@@ -506,6 +515,23 @@ def run_checker(repo, mn, cn, need, dest='D', sources=('D', 'S'),
     eq.module = mn
     ext = dict(EXT)
     ext['Group'] = mk_group_ext(need)
+
+    def ext_set(e, s_, a, k, n):
+        # the sets of needed names are mutable objects shared between the
+        # per-array checks: model them as such (in-place operators reach
+        # every alias)
+        if not a:
+            return set()
+        v = a[0]
+        if hasattr(v, 'vc_toset'):
+            return v.vc_toset()
+        top = e._fn_stack[-1] if e._fn_stack else ''
+        if top == 'check_equation_array_properties' and isinstance(
+                v, (list, tuple, set)) and all(isinstance(x, str)
+                                               for x in v):
+            return SymSet({x: True for x in v})
+        return set(v)
+    ext['set'] = ext_set
     ex = Executor(repo, m, qualname='check_equation_array_properties',
                   merge=False, prune=True, externals=ext,
                   inline={'get_arrays_used_in_equation', 'get_array_names',
@@ -614,9 +640,15 @@ def task_steppers(ctx, repo):
         if not stages:
             continue
         n_cls += 1
-        for meth in stages:
-            r = repo.find_method(mn, cn, meth)
-            args = [a.arg for a in r[2].args.args]
+        todo = [(meth, [a.arg for a in repo.find_method(mn, cn, meth)[
+            2].args.args]) for meth in stages]
+        if n_cls == 1:
+            # no shipped stepper spells an argument s_<name>, but the
+            # generated code declares and binds both prefixes to the
+            # stepper's own array: a need written s_<name> is a need
+            todo.append(('stage1', ['self', 'd_idx', 'd_x', 's_xref',
+                                    's_cref', 'dt']))
+        for meth, args in todo:
             needn = sorted(set(x[2:] for x in args if (
                 x.startswith('d_') or x.startswith('s_')) and
                 x not in ('d_idx', 's_idx')))
